@@ -46,7 +46,7 @@ ASSUMPTIONS = [
     "Stopper: the window-completeness boundary i in {patience-1, patience} is not pinned by the documentation (don't-care when the documented rule says stop); for i < patience-1 no stop is allowed; ties in the window admit any minimiser as best iteration",
     "Stopper letters and tolerances are dyadic rationals so float32 (implementation) and float64 (reference) agree exactly, including the boundaries diff == atol and rel_diff == rtol",
     "optim_flat is exercised with patience <= max_iter only (patience > max_iter raises TypeError in dynamic_slice: outside the domain, an error and not a wrong result)",
-    "the scripted optimiser and the gradient-decoding model are harness objects passed through the public optax / liesel API; tqdm is silenced (disable=True) by replacing liesel.goose.optim.tqdm",
+    "the scripted optimiser and the gradient-decoding model are harness objects passed through the public optax / liesel API; liesel.goose.optim.tqdm is replaced by a disabled bar; in the sequence sweep and part of the flag lattice the bar object is additionally falsy, so that optim_flat's progress debug-callback (pure UI) is not compiled into the loop (4x faster, XLA cache applies); the configurations with restore=prune=True of the flag lattice and all minibatch runs keep the callback path",
     "optim letters: validation-loss gaps between distinct letters are >= 0.02, comparisons of recorded float32 losses with the float64 reference use tolerance 2e-4",
     "minibatch: 'changes between iterations' and 'covers every observation' are decided on K consecutive iterations of one run (K=20 quick / 30 thorough); under ANY correct re-drawing scheme the chance of a false alarm is < 1e-11 per case; the real batch_seed is an input label (VERIF_SEED selects the block of 5 seeds)",
     "trusted: jax.random.permutation as a source of uniform permutations, optax.apply_updates, jax.lax.while_loop / fori_loop semantics",
@@ -84,7 +84,7 @@ def bounds(tier):
         },
         "optim": {
             "letters": 3,
-            "sequence_sweep": {"max_iter": 5 if q else 7, "patience": [1, 2, 3], "tolerances": OPT_TOLS[tier], "initial_letters": [1] if q else [0, 1, 2]},
+            "sequence_sweep": {"max_iter": 6 if q else 7, "patience": [1, 2, 3], "tolerances": OPT_TOLS[tier], "initial_letters": [1] if q else [0, 1, 2]},
             "flag_lattice": {"max_iter": [1, 2, 4] if q else [1, 2, 3, 5], "patience": [1, 3] if q else [1, 2, 3], "flags": "restore x prune x save_position_history x validation{none,same_n,diff_n}"},
         },
         "minibatch": {"n": [4, 5, 7], "batch_size": [2, 3], "seeds_per_run": 5, "iterations": 20 if q else 30},
@@ -122,9 +122,9 @@ def units(tier, seed):
         for bs in (2, 3):
             us.append({"kind": "minibatch", "n": n, "bs": bs, "seeds": [5 * seed + s for s in range(5)], "K": K})
     # --- optim: sequence sweep ---------------------------------------------------------
-    M = 5 if q else 7
+    M = 6 if q else 7
     plen = 1 if q else 2
-    base = {"val": "diff_n", "restore": True, "save": True, "prune": True}
+    base = {"val": "diff_n", "restore": True, "save": True, "prune": True, "bar": False}
     for p in (1, 2, 3):
         for tol in OPT_TOLS[tier]:
             for init in ([1] if q else [0, 1, 2]):
@@ -134,6 +134,7 @@ def units(tier, seed):
     Ms = [1, 2, 4] if q else [1, 2, 3, 5]
     ps = [1, 3] if q else [1, 2, 3]
     for fl in _flag_combos():
+        fl = {**fl, "bar": bool(fl["restore"] and fl["prune"])}
         for Mx in Ms:
             for p in ps:
                 if p > Mx:
@@ -187,10 +188,34 @@ def _setup():
         jax.config.update("jax_persistent_cache_min_entry_size_bytes", -1)
     except Exception:  # the cache is an optimisation only
         pass
-    O.tqdm = functools.partial(tqdm, disable=True)
+    class QuietFalsy(tqdm):
+        """Disabled bar that is falsy: optim_flat then skips its tqdm debug callback."""
+
+        def __init__(self, *a, **k):
+            k["disable"] = True
+            super().__init__(*a, **k)
+
+        def __bool__(self):
+            return False
+
+    _SETUP["bar_on"] = functools.partial(tqdm, disable=True)  # truthy: callback path compiled in
+    _SETUP["bar_off"] = QuietFalsy
+    O.tqdm = _SETUP["bar_on"]
     logging.getLogger("liesel").setLevel(logging.ERROR)
     _SETUP["O"] = O
     return _SETUP
+
+
+def _drop_caches():
+    """Every optim_flat call leaves traced closures in jax's in-memory caches (~2.5 MB per
+    call); workers are reused for many units, so the caches are dropped after each unit
+    (the on-disk XLA cache keeps the compiled loops)."""
+    import gc
+
+    import jax
+
+    jax.clear_caches()
+    gc.collect()
 
 
 def scripted_optimizer(script_values):
@@ -440,6 +465,8 @@ def _run_optim_once(cfg: dict, letters: list[int]):
     import numpy as np
     from liesel.goose.optim import Stopper, optim_flat
 
+    S = _setup()
+    S["O"].tqdm = S["bar_on"] if cfg.get("bar") else S["bar_off"]
     M, p = cfg["M"], cfg["p"]
     script = [OPT_POS[a] for a in letters] + [OPT_POS[0]] * (M + 1 - len(letters))
     model = mean_model(Y_TRAIN, OPT_POS[cfg["init"]])
@@ -596,6 +623,7 @@ def run_optim(res: core.UnitResult, cfg: dict):
     res.states += n_exec
     res.executions += n_exec
     res.transitions += iters
+    _drop_caches()
 
 
 # ---------------------------------------------------------------------------------
@@ -670,6 +698,7 @@ def run_minibatch(res: core.UnitResult, u: dict):
         res.outcome("minibatch", n, bs, "distinct-partitions", min(distinct_sets, 3), "covered" if not never else "uncovered")
         res.note([seed, partitions[:3], distinct_sets, never])
         res.sample({"kind": "minibatch", **case, "first_partitions": partitions[:3], "distinct_partitions": distinct_sets}, limit=1)
+    _drop_caches()
 
 
 # ---------------------------------------------------------------------------------
